@@ -184,6 +184,17 @@ func TestVerifC04(t *testing.T) {
 		}
 	}
 	rng.Shuffle(len(bases), func(a, b int) { bases[a], bases[b] = bases[b], bases[a] })
+	// pinned first: "swap" situations (one member leaves while one host joins, so the list keeps its size) - the
+	// eviction guard must not be fooled by the unchanged length
+	var pinned []base
+	for _, ev := range []string{"member_dead", "member_stopped", "member_ioerr"} {
+		for _, mf := range []bool{false, true} {
+			pinned = append(pinned, base{4, []string{"member_ok", ev, "joiner_ok"}, 1, mf, false})
+			pinned = append(pinned, base{3, []string{ev, "joiner_ok"}, 1, mf, false})
+		}
+	}
+	rng.Shuffle(len(pinned), func(a, b int) { pinned[a], pinned[b] = pinned[b], pinned[a] })
+	bases = append(pinned, bases...)
 	runs, nbase := 0, 0
 	for bi, b := range bases {
 		if bi%sn != si {
@@ -350,6 +361,20 @@ func TestVerifC04(t *testing.T) {
 			lim := vEnvInt("VERIF_FAULTS_PER_BASE", 5)
 			if len(cases) > lim {
 				cases = cases[:lim]
+			}
+		}
+		// the master dies right before one of the manager's liveness probes of it (they are reads, hence not in the
+		// census): the eviction guard must then refuse to shrink the list
+		evicts, joins := false, false
+		for _, c := range b.cls {
+			evicts = evicts || c == "member_dead" || c == "member_stopped" || c == "member_ioerr" || c == "member_diverged"
+			joins = joins || c == "joiner_ok"
+		}
+		if evicts {
+			for occ := 1; occ <= 6; occ++ {
+				if full || joins || occ <= 2 {
+					cases = append(cases, &faultSpec{Chan: "sql", Stmt: "Ping", At: "h1", Occ: occ, Kind: "diebefore"})
+				}
 			}
 		}
 		for _, f := range cases {
